@@ -2,7 +2,7 @@ import FastgoModel.Proofs.BitsBytes
 import FastgoModel.Proofs.WriterAppend
 namespace Fastgo.Writer
 open Fastgo.Spec
-variable {MF Tok : Type}
+variable {MF Tok : Type} {base : Nat} {H : List UInt8}
 
 /-- leaf contracts of the dynamic compressor, relative to the specification inflater -/
 structure Sound (L : DynLeaves MF Tok) (mode : Mode) where
@@ -52,27 +52,49 @@ theorem writeAll_healthy (d : Dst) (hh : d.Healthy) (cs : List (List UInt8)) :
     refine ⟨i1, i2, ?_⟩
     rw [i3, h3]; simp
 
+/-- the part of the destination that belongs to this DEFLATE stream: everything after the first `base` bytes
+    (a gzip/zlib header written by the wrapper; `base = 0` for a bare flate Writer) -/
+def body (base : Nat) (d : Dst) : List UInt8 := d.bytes.drop base
+
+theorem body_zero (d : Dst) : body 0 d = d.bytes := rfl
+
+theorem body_append (base : Nat) (d d1 : Dst) (c : List UInt8) (hb : base ≤ d.bytes.length) (h : d1.bytes = d.bytes ++ c) :
+    body base d1 = body base d ++ c ∧ base ≤ d1.bytes.length ∧ d1.bytes.take base = d.bytes.take base := by
+  unfold body
+  rw [h, List.drop_append_of_le_length hb, List.take_append_of_le_length hb]
+  exact ⟨rfl, by simp only [List.length_append]; omega, rfl⟩
+
 /-- all bits produced so far: what the destination holds plus the bit carry -/
 def emitted (w : WState MF Tok) : Bits := bytesToBits w.dst.bytes ++ w.dyn.carry
 
 
 /-- The stream invariant of the dynamic compressor: `D` is all the data written so far. -/
-structure DInv (L : DynLeaves MF Tok) {mode : Mode} (S : Sound L mode) (D : List UInt8) (s : Dyn MF Tok) (d : Dst) : Prop where
+structure DInv (L : DynLeaves MF Tok) {mode : Mode} (S : Sound L mode) (base : Nat) (H : List UInt8) (D : List UInt8) (s : Dyn MF Tok) (d : Dst) : Prop where
   healthy : d.Healthy
+  baseLe  : base ≤ d.bytes.length
+  pre     : d.bytes.take base = H
   bufLe   : s.buf.length ≤ D.length
   bufEq   : s.buf = D.drop (D.length - s.buf.length)
   idxLe   : s.idx ≤ s.buf.length
   proc    : s.processed + (s.buf.length - s.idx) = D.length
   empty   : s.buf.length = 0 → D = []
-  chain   : ∃ n q, q ≤ s.processed ∧ Chain mode n 0 (bytesToBits d.bytes ++ s.carry) #[] (D.take q) ∧
+  chain   : ∃ n q, q ≤ s.processed ∧ Chain mode n 0 (bytesToBits (body base d) ++ s.carry) #[] (D.take q) ∧
             S.resolve (D.take q) s.tokens = (D.take s.processed).drop q
 
+/-- a compressor with nothing buffered, at the point of the destination where its stream will begin -/
+theorem dinv_fresh (L : DynLeaves MF Tok) {mode : Mode} (S : Sound L mode) (s : Dyn MF Tok) (d : Dst) (hh : d.Healthy)
+    (h1 : s.buf = []) (h2 : s.idx = 0) (h3 : s.processed = 0) (h4 : s.tokens = []) (h5 : s.carry = []) :
+    DInv L S d.bytes.length d.bytes [] s d := by
+  refine ⟨hh, Nat.le_refl _, List.take_length, by simp [h1], by simp [h1], by simp [h1, h2], by simp [h1, h2, h3], fun _ => rfl, ?_⟩
+  refine ⟨0, 0, by simp [h3], ?_, ?_⟩
+  · simp [body, h5, bytesToBits]; exact Chain.nil 0 #[]
+  · simp [h4, S.resolve_nil, h3]
+
 theorem dinv_init (L : DynLeaves MF Tok) {mode : Mode} (S : Sound L mode) (d : Dst) (hh : d.Healthy) (hd : d.got = []) :
-    DInv L S [] (Dyn.init L) d := by
-  refine ⟨hh, by simp [Dyn.init], by simp [Dyn.init], by simp [Dyn.init], by simp [Dyn.init], fun _ => rfl, ?_⟩
-  refine ⟨0, 0, by simp [Dyn.init], ?_, ?_⟩
-  · simp [Dyn.init, Dst.bytes, hd, bytesToBits]; exact Chain.nil 0 #[]
-  · simp [Dyn.init, S.resolve_nil]
+    DInv L S 0 [] [] (Dyn.init L) d := by
+  have := dinv_fresh L S (Dyn.init L) d hh rfl rfl rfl rfl rfl
+  have hl : d.bytes = [] := by simp [Dst.bytes, hd]
+  rw [hl] at this; exact this
 
 /-- list facts used below -/
 theorem take_drop_eq (D : List UInt8) (a b : Nat) (h : b ≤ a) : (D.take a).drop b = (D.drop b).take (a - b) := by
@@ -89,8 +111,8 @@ def afterGen (L : DynLeaves MF Tok) (flush : Bool) (s : Dyn MF Tok) : Dyn MF Tok
   { s with processed := s.processed + (g.1 - s.idx), idx := g.1, tokens := g.2.1, mf := g.2.2 }
 
 theorem afterGen_inv (L : DynLeaves MF Tok) {mode : Mode} (S : Sound L mode) (D : List UInt8) (flush : Bool)
-    (s : Dyn MF Tok) (d : Dst) (hi : DInv L S D s d) :
-    DInv L S D (afterGen L flush s) d ∧
+    (s : Dyn MF Tok) (d : Dst) (hi : DInv L S base H D s d) :
+    DInv L S base H D (afterGen L flush s) d ∧
     (flush = true → (afterGen L flush s).idx = (afterGen L flush s).buf.length ∨ s.idx < (afterGen L flush s).idx) ∧
     (afterGen L flush s).buf = s.buf := by
   obtain ⟨n, q, hq, hch, hres⟩ := hi.chain
@@ -106,7 +128,7 @@ theorem afterGen_inv (L : DynLeaves MF Tok) {mode : Mode} (S : Sound L mode) (D 
     rw [e2, e1, ← hb]
   have hlen : (D.take s.processed).length = s.processed := by rw [List.length_take]; omega
   obtain ⟨g1, g2, g3, new, g4, g5⟩ := S.gen flush s.buf s.processed s.idx s.mf s.tokens (D.take s.processed) hidx hlen hhist
-  refine ⟨⟨hi.healthy, hble, hi.bufEq, g2, ?_, hi.empty, ?_⟩, g3, rfl⟩
+  refine ⟨⟨hi.healthy, hi.baseLe, hi.pre, hble, hi.bufEq, g2, ?_, hi.empty, ?_⟩, g3, rfl⟩
   · show s.processed + ((L.generate flush s.buf s.processed s.idx s.mf s.tokens).1 - s.idx) +
         (s.buf.length - (L.generate flush s.buf s.processed s.idx s.mf s.tokens).1) = D.length
     omega
@@ -152,17 +174,18 @@ theorem encDst_ok (L : DynLeaves MF Tok) (last : Bool) (s1 : Dyn MF Tok) (d : Ds
 
 /-- a non-final block: the chain grows by one block and covers everything processed -/
 theorem afterEnc_inv (L : DynLeaves MF Tok) {mode : Mode} (S : Sound L mode) (D : List UInt8)
-    (s1 : Dyn MF Tok) (d : Dst) (hi : DInv L S D s1 d) :
-    DInv L S D (afterEnc L false s1) (encDst L false s1 d).1 := by
+    (s1 : Dyn MF Tok) (d : Dst) (hi : DInv L S base H D s1 d) :
+    DInv L S base H D (afterEnc L false s1) (encDst L false s1 d).1 := by
   obtain ⟨n, q, hq, hch, hres⟩ := hi.chain
   obtain ⟨w1, w2, w3⟩ := writeAll_healthy d hi.healthy (L.encode s1.mf (s1.tokens ++ [L.eob]) false s1.carry).1
-  obtain ⟨B, hB, hnf, _⟩ := S.enc s1.mf s1.tokens false s1.carry (D.take q) (bytesToBits d.bytes ++ s1.carry).length
+  obtain ⟨B, hB, hnf, _⟩ := S.enc s1.mf s1.tokens false s1.carry (D.take q) (bytesToBits (body base d) ++ s1.carry).length
   have hbits := hnf rfl
-  refine ⟨w2, hi.bufLe, hi.bufEq, hi.idxLe, hi.proc, hi.empty, ?_⟩
+  obtain ⟨b1, b2, b3⟩ := body_append base d _ _ hi.baseLe w3
+  refine ⟨w2, b2, b3.trans hi.pre, hi.bufLe, hi.bufEq, hi.idxLe, hi.proc, hi.empty, ?_⟩
   refine ⟨n + 1, s1.processed, Nat.le_refl _, ?_, ?_⟩
-  · show Chain mode (n + 1) 0 (bytesToBits (encDst L false s1 d).1.bytes ++ (L.encode s1.mf (s1.tokens ++ [L.eob]) false s1.carry).2) #[] (D.take s1.processed)
+  · show Chain mode (n + 1) 0 (bytesToBits (body base (encDst L false s1 d).1) ++ (L.encode s1.mf (s1.tokens ++ [L.eob]) false s1.carry).2) #[] (D.take s1.processed)
     unfold encDst
-    rw [w3, bytesToBits_append, List.append_assoc, hbits, ← List.append_assoc]
+    rw [b1, bytesToBits_append, List.append_assoc, hbits, ← List.append_assoc]
     have hsn := Chain.snoc hch B (S.resolve (D.take q) s1.tokens) (by simpa using hB)
     rw [hres, take_append_drop_take D q s1.processed hq] at hsn
     exact hsn
@@ -197,10 +220,10 @@ theorem afterEnc_frame (L : DynLeaves MF Tok) (last : Bool) (s1 : Dyn MF Tok) :
     and with `flush` consumes everything, leaves no pending token and cannot get stuck (every round of the
     `goto again` loop makes progress) -/
 theorem compressBlock_nonfinal (L : DynLeaves MF Tok) {mode : Mode} (S : Sound L mode) (c : Cfg) (D : List UInt8)
-    (flush : Bool) (fuel : Nat) (s : Dyn MF Tok) (d : Dst) (hi : DInv L S D s d) :
+    (flush : Bool) (fuel : Nat) (s : Dyn MF Tok) (d : Dst) (hi : DInv L S base H D s d) :
     (compressBlock L c flush false fuel s d).2.2 ≠ .failed ∧
     ((compressBlock L c flush false fuel s d).2.2 = .ok →
-      DInv L S D (compressBlock L c flush false fuel s d).1 (compressBlock L c flush false fuel s d).2.1 ∧
+      DInv L S base H D (compressBlock L c flush false fuel s d).1 (compressBlock L c flush false fuel s d).2.1 ∧
       (flush = true → (compressBlock L c flush false fuel s d).1.idx = (compressBlock L c flush false fuel s d).1.buf.length ∧
         (compressBlock L c flush false fuel s d).1.tokens = [])) ∧
     (flush = true → s.buf.length - s.idx < fuel → (compressBlock L c flush false fuel s d).2.2 = .ok) := by
@@ -236,12 +259,12 @@ theorem compressBlock_nonfinal (L : DynLeaves MF Tok) {mode : Mode} (S : Sound L
 
 /-- the sliding-window shift of Accumulate keeps the invariant -/
 theorem shift_inv (L : DynLeaves MF Tok) {mode : Mode} (S : Sound L mode) (c : Cfg) (hw : 0 < c.window) (D : List UInt8)
-    (s : Dyn MF Tok) (d : Dst) (hi : DInv L S D s d) (h2 : s.idx ≥ 2 * c.window) :
-    DInv L S D { s with buf := s.buf.drop (s.idx - c.window), idx := s.idx - (s.idx - c.window) } d := by
+    (s : Dyn MF Tok) (d : Dst) (hi : DInv L S base H D s d) (h2 : s.idx ≥ 2 * c.window) :
+    DInv L S base H D { s with buf := s.buf.drop (s.idx - c.window), idx := s.idx - (s.idx - c.window) } d := by
   have hidx := hi.idxLe
   have hble := hi.bufLe
   have hproc := hi.proc
-  refine ⟨hi.healthy, ?_, ?_, ?_, ?_, ?_, hi.chain⟩
+  refine ⟨hi.healthy, hi.baseLe, hi.pre, ?_, ?_, ?_, ?_, ?_, hi.chain⟩
   · show (s.buf.drop (s.idx - c.window)).length ≤ D.length
     rw [List.length_drop]; omega
   · show s.buf.drop (s.idx - c.window) = D.drop (D.length - (s.buf.drop (s.idx - c.window)).length)
@@ -257,14 +280,14 @@ theorem shift_inv (L : DynLeaves MF Tok) {mode : Mode} (S : Sound L mode) (c : C
 
 /-- appending newly written bytes to the buffer extends the data by the same bytes -/
 theorem append_inv (L : DynLeaves MF Tok) {mode : Mode} (S : Sound L mode) (D t : List UInt8)
-    (s : Dyn MF Tok) (d : Dst) (hi : DInv L S D s d) :
-    DInv L S (D ++ t) { s with buf := s.buf ++ t } d := by
+    (s : Dyn MF Tok) (d : Dst) (hi : DInv L S base H D s d) :
+    DInv L S base H (D ++ t) { s with buf := s.buf ++ t } d := by
   have hidx := hi.idxLe
   have hble := hi.bufLe
   have hproc := hi.proc
   obtain ⟨n, q, hq, hch, hres⟩ := hi.chain
   have hpl : s.processed ≤ D.length := by omega
-  refine ⟨hi.healthy, ?_, ?_, ?_, ?_, ?_, ⟨n, q, hq, ?_, ?_⟩⟩
+  refine ⟨hi.healthy, hi.baseLe, hi.pre, ?_, ?_, ?_, ?_, ?_, ⟨n, q, hq, ?_, ?_⟩⟩
   · show (s.buf ++ t).length ≤ (D ++ t).length
     simp only [List.length_append]; omega
   · show s.buf ++ t = (D ++ t).drop ((D ++ t).length - (s.buf ++ t).length)
@@ -281,14 +304,14 @@ theorem append_inv (L : DynLeaves MF Tok) {mode : Mode} (S : Sound L mode) (D t 
     have h0 : s.buf.length = 0 := by omega
     have ht : t = [] := List.eq_nil_of_length_eq_zero (by omega)
     rw [hi.empty h0, ht]; rfl
-  · show Chain mode n 0 (bytesToBits d.bytes ++ s.carry) #[] ((D ++ t).take q)
+  · show Chain mode n 0 (bytesToBits (body base d) ++ s.carry) #[] ((D ++ t).take q)
     rw [List.take_append_of_le_length (by omega)]; exact hch
   · show S.resolve ((D ++ t).take q) s.tokens = ((D ++ t).take s.processed).drop q
     rw [List.take_append_of_le_length (by omega), List.take_append_of_le_length hpl]; exact hres
 
 theorem accumulate_inv (L : DynLeaves MF Tok) {mode : Mode} (S : Sound L mode) (c : Cfg) (hw : 0 < c.window) (D data : List UInt8)
-    (s : Dyn MF Tok) (d : Dst) (hi : DInv L S D s d) :
-    DInv L S (D ++ data.take (accumulate c s data).2.1) (accumulate c s data).1 d := by
+    (s : Dyn MF Tok) (d : Dst) (hi : DInv L S base H D s d) :
+    DInv L S base H (D ++ data.take (accumulate c s data).2.1) (accumulate c s data).1 d := by
   unfold accumulate
   dsimp only
   by_cases h2 : s.idx ≥ 2 * c.window
@@ -300,11 +323,11 @@ theorem accumulate_inv (L : DynLeaves MF Tok) {mode : Mode} (S : Sound L mode) (
 
 /-- Writer.Write's loop: if it reports no error, the bytes it reports as accepted have joined the data -/
 theorem writeLoop_inv (L : DynLeaves MF Tok) {mode : Mode} (S : Sound L mode) (c : Cfg) (hw : 0 < c.window)
-    (fuel : Nat) (D data : List UInt8) (w : WState MF Tok) (num : Nat) (hi : DInv L S D w.dyn w.dst) :
+    (fuel : Nat) (D data : List UInt8) (w : WState MF Tok) (num : Nat) (hi : DInv L S base H D w.dyn w.dst) :
     (writeLoop L c fuel w data num).2.err = none →
       (writeLoop L c fuel w data num).1.err = w.err ∧
       ∃ k, (writeLoop L c fuel w data num).2.n = num + k ∧ k ≤ data.length ∧
-        DInv L S (D ++ data.take k) (writeLoop L c fuel w data num).1.dyn (writeLoop L c fuel w data num).1.dst := by
+        DInv L S base H (D ++ data.take k) (writeLoop L c fuel w data num).1.dyn (writeLoop L c fuel w data num).1.dst := by
   induction fuel generalizing D data w num with
   | zero =>
     intro _
@@ -361,8 +384,8 @@ theorem writeLoop_inv (L : DynLeaves MF Tok) {mode : Mode} (S : Sound L mode) (c
 
 /-- a state in which everything written has been processed and no token is pending: the chain covers all of D -/
 theorem chain_all (L : DynLeaves MF Tok) {mode : Mode} (S : Sound L mode) (D : List UInt8) (s : Dyn MF Tok) (d : Dst)
-    (hi : DInv L S D s d) (hidx : s.idx = s.buf.length) (htok : s.tokens = []) :
-    ∃ n, Chain mode n 0 (bytesToBits d.bytes ++ s.carry) #[] D := by
+    (hi : DInv L S base H D s d) (hidx : s.idx = s.buf.length) (htok : s.tokens = []) :
+    ∃ n, Chain mode n 0 (bytesToBits (body base d) ++ s.carry) #[] D := by
   obtain ⟨n, q, hq, hch, hres⟩ := hi.chain
   have hproc := hi.proc
   rw [htok, S.resolve_nil] at hres
@@ -375,10 +398,10 @@ theorem chain_all (L : DynLeaves MF Tok) {mode : Mode} (S : Sound L mode) (D : L
 /-- Writer.Flush on a healthy destination: succeeds; what the destination holds is a chain of complete non-final
     blocks for ALL the data written so far, and nothing is held back in the bit carry -/
 theorem flush_tracks (L : DynLeaves MF Tok) {mode : Mode} (S : Sound L mode) (c : Cfg) (D : List UInt8)
-    (w : WState MF Tok) (he : w.err = none) (hi : DInv L S D w.dyn w.dst) :
+    (w : WState MF Tok) (he : w.err = none) (hi : DInv L S base H D w.dyn w.dst) :
     (flush L c w).2.err = none ∧ (flush L c w).1.err = none ∧
-    DInv L S D (flush L c w).1.dyn (flush L c w).1.dst ∧ (flush L c w).1.dyn.carry = [] ∧
-    ∃ n, Chain mode n 0 (bytesToBits (flush L c w).1.dst.bytes) #[] D := by
+    DInv L S base H D (flush L c w).1.dyn (flush L c w).1.dst ∧ (flush L c w).1.dyn.carry = [] ∧
+    ∃ n, Chain mode n 0 (bytesToBits (body base (flush L c w).1.dst)) #[] D := by
   unfold flush
   rw [he]
   simp only
@@ -397,22 +420,23 @@ theorem flush_tracks (L : DynLeaves MF Tok) {mode : Mode} (S : Sound L mode) (c 
   simp only at w1 w2 w3
   subst w1
   simp only
+  obtain ⟨b1, b2, b3⟩ := body_append base d1 _ _ i1.baseLe w3
   obtain ⟨n, hch⟩ := chain_all L S D s1 d1 i1 i3 i4
-  have hpos : (bytesToBits d1.bytes ++ s1.carry).length % 8 = s1.carry.length % 8 := by
+  have hpos : (bytesToBits (body base d1) ++ s1.carry).length % 8 = s1.carry.length % 8 := by
     rw [List.length_append, bytesToBits_length]; omega
-  have hbits : bytesToBits d2.bytes = (bytesToBits d1.bytes ++ s1.carry) ++ storedEmptyBits (bytesToBits d1.bytes ++ s1.carry).length false := by
-    rw [w3, bytesToBits_append, emptyStored_bits s1.carry false _ hpos, List.append_assoc]
-  have hch2 : Chain mode (n + 1) 0 (bytesToBits d2.bytes) #[] D := by
-    have := Chain.snoc hch (storedEmptyBits (bytesToBits d1.bytes ++ s1.carry).length false) []
+  have hbits : bytesToBits (body base d2) = (bytesToBits (body base d1) ++ s1.carry) ++ storedEmptyBits (bytesToBits (body base d1) ++ s1.carry).length false := by
+    rw [b1, bytesToBits_append, emptyStored_bits s1.carry false _ hpos, List.append_assoc]
+  have hch2 : Chain mode (n + 1) 0 (bytesToBits (body base d2)) #[] D := by
+    have := Chain.snoc hch (storedEmptyBits (bytesToBits (body base d1) ++ s1.carry).length false) []
       (by simpa using storedEmpty_isBlock mode _ false _)
     rw [← hbits, List.append_nil] at this
     exact this
   refine ⟨trivial, trivial, ?_, trivial, n + 1, hch2⟩
-  refine ⟨w2, i1.bufLe, i1.bufEq, i1.idxLe, i1.proc, i1.empty, ?_⟩
+  refine ⟨w2, b2, b3.trans i1.pre, i1.bufLe, i1.bufEq, i1.idxLe, i1.proc, i1.empty, ?_⟩
   refine ⟨n + 1, D.length, ?_, ?_, ?_⟩
   · show D.length ≤ s1.processed
     have := i1.proc; omega
-  · show Chain mode (n + 1) 0 (bytesToBits d2.bytes ++ []) #[] (D.take D.length)
+  · show Chain mode (n + 1) 0 (bytesToBits (body base d2) ++ []) #[] (D.take D.length)
     rw [List.append_nil, List.take_length]; exact hch2
   · show S.resolve (D.take D.length) s1.tokens = (D.take s1.processed).drop D.length
     rw [i4, S.resolve_nil]
@@ -447,9 +471,11 @@ theorem compressBlock_final_unfold (L : DynLeaves MF Tok) (c : Cfg) (fuel : Nat)
 /-- dynCompressor.compressBlock(final): healthy destination ⇒ succeeds and completes the stream (non-final
     blocks while the match finder stops early, then the final block) -/
 theorem compressBlock_final (L : DynLeaves MF Tok) {mode : Mode} (S : Sound L mode) (c : Cfg) (D : List UInt8)
-    (fuel : Nat) (s : Dyn MF Tok) (d : Dst) (hi : DInv L S D s d) (hfu : s.buf.length - s.idx < fuel) :
+    (fuel : Nat) (s : Dyn MF Tok) (d : Dst) (hi : DInv L S base H D s d) (hfu : s.buf.length - s.idx < fuel) :
     (compressBlock L c true true fuel s d).2.2 = .ok ∧
-    ClosedStream mode D (compressBlock L c true true fuel s d).2.1.bytes := by
+    ClosedStream mode D (body base (compressBlock L c true true fuel s d).2.1) ∧
+    (compressBlock L c true true fuel s d).2.1.Healthy ∧ base ≤ (compressBlock L c true true fuel s d).2.1.bytes.length ∧
+    (compressBlock L c true true fuel s d).2.1.bytes.take base = H := by
   induction fuel generalizing s d with
   | zero => omega
   | succ fuel ih =>
@@ -464,12 +490,13 @@ theorem compressBlock_final (L : DynLeaves MF Tok) {mode : Mode} (S : Sound L mo
     simp only at w1 w2 w3
     subst w1
     simp only
-    refine ⟨trivial, n, q, bytesToBits d.bytes ++ s.carry, storedEmptyBits (bytesToBits d.bytes ++ s.carry).length true, [], hch, ?_, ?_, by simp, by simp⟩
+    obtain ⟨b1, b2, b3⟩ := body_append base d _ _ hi.baseLe w3
+    refine ⟨trivial, ⟨n, q, bytesToBits (body base d) ++ s.carry, storedEmptyBits (bytesToBits (body base d) ++ s.carry).length true, [], hch, ?_, ?_, by simp, by simp⟩, w2, b2, b3.trans hi.pre⟩
     · have : D.drop q = [] := by rw [hD]; simp
       rw [this]; exact storedEmpty_isBlock mode _ true _
-    · have hpos : (bytesToBits d.bytes ++ s.carry).length % 8 = s.carry.length % 8 := by
+    · have hpos : (bytesToBits (body base d) ++ s.carry).length % 8 = s.carry.length % 8 := by
         rw [List.length_append, bytesToBits_length]; omega
-      rw [w3, bytesToBits_append, emptyStored_bits s.carry true _ hpos]
+      rw [b1, bytesToBits_append, emptyStored_bits s.carry true _ hpos]
       simp [List.append_assoc]
   · rw [if_neg h0]
     obtain ⟨hg, hgf, hgb⟩ := afterGen_inv L S D true s d hi
@@ -480,7 +507,7 @@ theorem compressBlock_final (L : DynLeaves MF Tok) {mode : Mode} (S : Sound L mo
     · -- everything consumed: this is the final block
       obtain ⟨n1, q1, hq1, hch1, hres1⟩ := hg.chain
       simp only [hidx, decide_true, if_true]
-      obtain ⟨B, hB, _, hfin⟩ := S.enc s1.mf s1.tokens true s1.carry (D.take q1) (bytesToBits d.bytes ++ s1.carry).length
+      obtain ⟨B, hB, _, hfin⟩ := S.enc s1.mf s1.tokens true s1.carry (D.take q1) (bytesToBits (body base d) ++ s1.carry).length
       obtain ⟨hc0, hbits⟩ := hfin rfl
       obtain ⟨w1, w2, w3⟩ := writeAll_healthy d hg.healthy (L.encode s1.mf (s1.tokens ++ [L.eob]) true s1.carry).1
       unfold encDst
@@ -490,10 +517,11 @@ theorem compressBlock_final (L : DynLeaves MF Tok) {mode : Mode} (S : Sound L mo
       subst w1
       simp only
       have hp1 : s1.processed = D.length := by have := hg.proc; omega
-      refine ⟨trivial, n1, q1, bytesToBits d.bytes ++ s1.carry, B, List.replicate (padLen (s1.carry ++ B).length) false, hch1, ?_, ?_,
-        by rw [List.length_replicate]; exact padLen_lt _, fun b hb => (List.mem_replicate.mp hb).2⟩
+      obtain ⟨b1, b2, b3⟩ := body_append base d _ _ hg.baseLe w3
+      refine ⟨trivial, ⟨n1, q1, bytesToBits (body base d) ++ s1.carry, B, List.replicate (padLen (s1.carry ++ B).length) false, hch1, ?_, ?_,
+        by rw [List.length_replicate]; exact padLen_lt _, fun b hb => (List.mem_replicate.mp hb).2⟩, w2, b2, b3.trans hg.pre⟩
       · rw [hres1, hp1, List.take_length] at hB; exact hB
-      · rw [w3, bytesToBits_append, hbits]; simp [List.append_assoc]
+      · rw [b1, bytesToBits_append, hbits]; simp [List.append_assoc]
     · -- the match finder stopped early: a non-final block, then again
       have hdf : decide (s1.idx = s1.buf.length) = false := by simpa using hidx
       rw [hdf]
@@ -515,22 +543,28 @@ theorem compressBlock_final (L : DynLeaves MF Tok) {mode : Mode} (S : Sound L mo
       · omega
 
 /-- "the Writer is open and D is everything written to it since it was created or last Reset" -/
-def Tracks (L : DynLeaves MF Tok) {mode : Mode} (S : Sound L mode) (D : List UInt8) (w : WState MF Tok) : Prop :=
-  w.err = none ∧ DInv L S D w.dyn w.dst
+def Tracks (L : DynLeaves MF Tok) {mode : Mode} (S : Sound L mode) (base : Nat) (H : List UInt8) (D : List UInt8) (w : WState MF Tok) : Prop :=
+  w.err = none ∧ DInv L S base H D w.dyn w.dst
 
 theorem tracks_init (L : DynLeaves MF Tok) {mode : Mode} (S : Sound L mode) (d : Dst) (hh : d.Healthy) (hd : d.got = []) :
-    Tracks L S [] (WState.init L d) := ⟨rfl, dinv_init L S d hh hd⟩
+    Tracks L S 0 [] [] (WState.init L d) := ⟨rfl, dinv_init L S d hh hd⟩
+
+/-- a Writer that was just created or Reset, seen from a wrapper that has already written `d.bytes` (its header)
+    to the shared destination: the DEFLATE stream begins there -/
+theorem tracks_fresh (L : DynLeaves MF Tok) {mode : Mode} (S : Sound L mode) (w : WState MF Tok) (hh : w.dst.Healthy)
+    (he : w.err = none) (h1 : w.dyn.buf = []) (h2 : w.dyn.idx = 0) (h3 : w.dyn.processed = 0) (h4 : w.dyn.tokens = [])
+    (h5 : w.dyn.carry = []) :
+    Tracks L S w.dst.bytes.length w.dst.bytes [] w := ⟨he, dinv_fresh L S w.dyn w.dst hh h1 h2 h3 h4 h5⟩
 
 theorem tracks_reset (L : DynLeaves MF Tok) {mode : Mode} (S : Sound L mode) (w : WState MF Tok) (d : Dst) (hh : d.Healthy) (hd : d.got = []) :
-    Tracks L S [] (reset L w d) := by
-  refine ⟨rfl, hh, by simp [reset], by simp [reset], by simp [reset], by simp [reset], fun _ => rfl, ?_⟩
-  refine ⟨0, 0, by simp [reset], ?_, ?_⟩
-  · simp [reset, Dst.bytes, hd, bytesToBits]; exact Chain.nil 0 #[]
-  · simp [reset, S.resolve_nil]
+    Tracks L S 0 [] [] (reset L w d) := by
+  have := tracks_fresh L S (reset L w d) hh rfl rfl rfl rfl rfl rfl
+  have hl : (reset L w d).dst.bytes = [] := by show d.bytes = []; simp [Dst.bytes, hd]
+  rw [hl] at this; exact this
 
 theorem write_tracks (L : DynLeaves MF Tok) {mode : Mode} (S : Sound L mode) (c : Cfg) (hw : 0 < c.window) (D data : List UInt8)
-    (w : WState MF Tok) (ht : Tracks L S D w) (he : (write L c w data).2.err = none) :
-    (write L c w data).2.n ≤ data.length ∧ Tracks L S (D ++ data.take (write L c w data).2.n) (write L c w data).1 := by
+    (w : WState MF Tok) (ht : Tracks L S base H D w) (he : (write L c w data).2.err = none) :
+    (write L c w data).2.n ≤ data.length ∧ Tracks L S base H (D ++ data.take (write L c w data).2.n) (write L c w data).1 := by
   unfold write at he ⊢
   rw [ht.1] at he ⊢
   simp only at he ⊢
@@ -540,8 +574,9 @@ theorem write_tracks (L : DynLeaves MF Tok) {mode : Mode} (S : Sound L mode) (c 
   exact ⟨e3, e1.trans ht.1, e4⟩
 
 theorem close_tracks (L : DynLeaves MF Tok) {mode : Mode} (S : Sound L mode) (c : Cfg) (D : List UInt8)
-    (w : WState MF Tok) (ht : Tracks L S D w) :
-    (close L c w).2.err = none ∧ (close L c w).1.err = some .closed ∧ ClosedStream mode D (close L c w).1.dst.bytes := by
+    (w : WState MF Tok) (ht : Tracks L S base H D w) :
+    (close L c w).2.err = none ∧ (close L c w).1.err = some .closed ∧ ClosedStream mode D (body base (close L c w).1.dst) ∧
+    (close L c w).1.dst.Healthy ∧ base ≤ (close L c w).1.dst.bytes.length ∧ (close L c w).1.dst.bytes.take base = H := by
   unfold close
   rw [ht.1]
   simp only
@@ -579,8 +614,8 @@ def dataAfterAll (D : List UInt8) : List Op → List OpRes → List UInt8
   | _, _ => D
 
 theorem step_tracks (L : DynLeaves MF Tok) {mode : Mode} (S : Sound L mode) (c : Cfg) (hw : 0 < c.window) (D : List UInt8)
-    (w : WState MF Tok) (ht : Tracks L S D w) (op : Op) (hop : op.keepsOpen) (he : (step L c w op).2.err = none) :
-    Tracks L S (dataAfter D op (step L c w op).2) (step L c w op).1 := by
+    (w : WState MF Tok) (ht : Tracks L S 0 [] D w) (op : Op) (hop : op.keepsOpen) (he : (step L c w op).2.err = none) :
+    Tracks L S 0 [] (dataAfter D op (step L c w op).2) (step L c w op).1 := by
   cases op with
   | write data => exact (write_tracks L S c hw D data w ht he).2
   | flush =>
@@ -590,9 +625,9 @@ theorem step_tracks (L : DynLeaves MF Tok) {mode : Mode} (S : Sound L mode) (c :
   | reset d => exact tracks_reset L S w d hop.1 hop.2
 
 theorem run_tracks (L : DynLeaves MF Tok) {mode : Mode} (S : Sound L mode) (c : Cfg) (hw : 0 < c.window)
-    (ops : List Op) (D : List UInt8) (w : WState MF Tok) (ht : Tracks L S D w)
+    (ops : List Op) (D : List UInt8) (w : WState MF Tok) (ht : Tracks L S 0 [] D w)
     (hops : ∀ op ∈ ops, op.keepsOpen) (he : ∀ r ∈ (run L c w ops).2, r.err = none) :
-    Tracks L S (dataAfterAll D ops (run L c w ops).2) (run L c w ops).1 := by
+    Tracks L S 0 [] (dataAfterAll D ops (run L c w ops).2) (run L c w ops).1 := by
   induction ops generalizing D w with
   | nil => simpa [run, dataAfterAll] using ht
   | cons op ops ih =>
